@@ -539,4 +539,70 @@ def rule_header_type(P):
     return R
 
 
+def rule_header_written(P):
+    """an index-set forest keeps each node's member count in the node's unhashed header, outside the hash and outside the children.  createReducedNode
+    stores whatever the unpacked node's header buffer holds — a recycled buffer if nobody wrote it.  So in every operation whose constructor requires
+    an INDEX_SET result, each path from the creation of a result node to its createReducedNode passes U->setUHdata(&count); and the exchange reader /
+    writer of a node pass through the forest's header hooks.  Seed C15c added a second, faster construction path that forgot the header"""
+    R = RuleResult("codec.header-written", "in every operation class whose constructor checks the result labeling to be INDEX_SET: no path from `U = unpacked_node::newWritable(resF, …)` to `resF->createReducedNode(U, …)` avoids `U->setUHdata(&c)`, c of the header's element type; unpacked_node::read / write call readHeaderInfo / writeHeaderInfo")
+    classes = set()
+    for f in P.fns.values():
+        if not f.get("cfg") or not f.get("cls") or base_name(f["q"]).split("::")[-1] != base_name(f["cls"]).split("::")[-1]:
+            continue
+        for b in f["cfg"]["blocks"]:
+            for e in b["ev"]:
+                if e["k"] == "call" and e["q"].endswith("::checkLabelings") and e["args"] and "INDEX_SET" in e["args"][-1]:
+                    classes.add(f["cls"])
+    if not classes:
+        raise AnalysisBroken("codec.header-written: no operation class requires an INDEX_SET result any more (expected mdd2index_operation)")
+    n = 0
+    seen = set()
+    for f in sorted(P.fns.values(), key=lambda f: (f["file"], f["line"], f["inst"])):
+        if not f.get("cfg") or f.get("cls") not in classes or (f["file"], f["line"]) in seen:
+            continue
+        seen.add((f["file"], f["line"]))
+        g = Graph(f)
+        made = {}
+        for k in g.nodes:
+            if k.kind == "ldef" and re.match(r"(MEDDLY::)?unpacked_node::(newWritable|New|newFull|newSparse)\((this->)?resF\b", re.sub(r"\s+", "", k.ev.get("rhs") or "")):
+                made.setdefault(k.ev["var"], []).append(k)
+        for k in g.nodes:
+            if k.kind != "call" or not k.ev["q"].endswith("::createReducedNode") or re.sub(r"\s+|this->", "", k.ev.get("recv") or "") != "resF":
+                continue
+            U = re.sub(r"\s+", "", k.ev["args"][0])
+            n += 1
+            R.functions.add(f["inst"])
+            iid = "%s: header of `%s` written before createReducedNode" % (base_name(f["q"]).replace(M, ""), U)
+            if U not in made:
+                R.fail(iid, where(f, k.line), Finding(R.rule, f["file"], base_name(f["q"]), "reduce:" + U, "the node handed to resF->createReducedNode is not one created here by unpacked_node::newWritable(resF, …): its cardinality header cannot be followed", k.line))
+                continue
+            bad = None
+            for c in made[U]:
+                R.paths += 1
+                pth = g.path(c.id, lambda x, k=k: x.id == k.id, avoid=lambda x, U=U: x.kind == "call" and x.ev["q"] == M + "unpacked_node::setUHdata" and re.sub(r"\s+", "", x.ev.get("recv") or "") == U and x.ev["args"] and x.ev["args"][0].startswith("&"))
+                if pth:
+                    bad = (c, pth)
+                    break
+            if bad:
+                R.fail(iid, where(f, k.line), Finding(R.rule, f["file"], base_name(f["q"]), "reduce:" + U,
+                       "index-set node `%s` created at line %s reaches createReducedNode without %s->setUHdata(&count): the stored cardinality is whatever the recycled buffer held" % (U, bad[0].line, U), k.line, path=show_path(bad[1])))
+            else:
+                R.ok(iid, where(f, k.line))
+    for fn, hook in (("unpacked_node::read", "forest::readHeaderInfo"), ("unpacked_node::write", "forest::writeHeaderInfo")):
+        for f in P.find(M + fn):
+            if not f.get("cfg"):
+                continue
+            n += 1
+            R.functions.add(f["inst"])
+            has = any(e["k"] == "call" and e["q"] == M + hook for b in f["cfg"]["blocks"] for e in b["ev"])
+            iid = "%s calls %s" % (fn, hook)
+            if has:
+                R.ok(iid, where(f))
+            else:
+                R.fail(iid, where(f), Finding(R.rule, f["file"], f["q"], "hook:" + hook.split("::")[-1], "the exchange %s of a node no longer passes through %s: index-set cardinalities are not carried across a file" % (fn.split("::")[-1], hook), f["line"]))
+            break
+    R.require_floor(3, "index-set node constructions and exchange hooks")
+    return R
+
+
 RULES = [rule_tokens, rule_terminal_io, rule_sections, rule_keywords, rule_code_chars, rule_domain_order]
